@@ -199,6 +199,9 @@ struct Visitor : RecursiveASTVisitor<Visitor> {
       O["typedef"] = TD->getNameAsString();
     O["loc"] = locJ(RD->getLocation());
     O["kind"] = RD->getKindName().str();
+    O["access"] = (int64_t)RD->getAccess();
+    if (auto *Outer = dyn_cast<RecordDecl>(RD->getDeclContext()))
+      O["nested_in"] = Outer->getQualifiedNameAsString();
     bool Dependent = RD->isDependentType();
     O["dependent"] = Dependent;
     if (auto *CRD = dyn_cast<CXXRecordDecl>(RD)) {
